@@ -324,15 +324,15 @@ Proof.
   assert (Call : forall s n l, Inv ct s -> ROK s -> Inv ct (fst (rec s n l)) /\ ROK (fst (rec s n l)))
     by (intros s n l Is Rs; split; [apply (HR s n l Is) | apply (HK s n l Is Rs)]).
   destruct len1 as [l|], (starred nm); try exact R.
-  - destruct (Z.eqb l 0); [exact R|].
+  - 
     destruct (Call st (cname_of nm) None I R) as [I1 R1]. destruct (rec st (cname_of nm) None) as [s1 r]. cbn [fst] in *.
     destruct r as [o b|k e].
-    + destruct (obj_len (heap s1) o); [destruct (Z.eqb a l)|]; cbn [fst]; apply rok_collect; exact R1.
+    + destruct (obj_length (heap s1) o); [destruct (Z.eqb a l)|]; cbn [fst]; apply rok_collect; exact R1.
     + destruct (is_singleton_err k); cbn [fst]; [apply rok_collect|]; exact R1.
-  - destruct (Z.eqb l 0); [exact R|].
+  - 
     destruct (Call st (cname_of nm) None I R) as [I1 R1]. destruct (rec st (cname_of nm) None) as [s1 r]. cbn [fst] in *.
     destruct r as [o b|k e].
-    + destruct (obj_len (heap s1) o); cbn [fst]; [|apply rok_collect; exact R1].
+    + destruct (obj_length (heap s1) o); cbn [fst]; [|apply rok_collect; exact R1].
       destruct (Call (collect s1) (cname_of nm) (Some l) (inv_collect _ _ I1) (rok_collect _ R1)) as [I2 R2].
       destruct (rec (collect s1) (cname_of nm) (Some l)) as [s2 r2]. cbn [fst] in *.
       destruct r2 as [o2 b2|k2 e2]; cbn [fst]; [apply rok_collect; exact R2|].
@@ -340,7 +340,7 @@ Proof.
     + destruct (is_singleton_err k); cbn [fst]; [apply rok_collect|]; exact R1.
   - destruct (Call st (cname_of nm) None I R) as [I1 R1]. destruct (rec st (cname_of nm) None) as [s1 r]. cbn [fst] in *.
     destruct r as [o b|k e].
-    + destruct (obj_len (heap s1) o); cbn [fst]; apply rok_collect; exact R1.
+    + destruct (obj_length (heap s1) o); cbn [fst]; apply rok_collect; exact R1.
     + destruct (is_singleton_err k); cbn [fst]; [apply rok_collect|]; exact R1.
 Qed.
 
